@@ -454,6 +454,7 @@ func runC02(r *run) {
 	flakyNeighbour(r.violate)
 	customErrorDevices(r.violate)
 	nilContextWithKeys(r.violate)
+	discardPlusLevelWriter(r.violate)
 	// the same delivery oracles in go-test mode (the error dump after a record is active only there):
 	// the twin binary harness.test, oracle-only
 	if exe := os.Getenv("VERIF_HARNESS"); exe != "" {
